@@ -26,6 +26,7 @@ package serf
 //vf:numtokens
 //vf:stub file system -> in-memory model (process-crash semantics: written bytes durable, bufio content volatile); bufio executed for real
 //vf:override os.Stat = github.com/hashicorp/serf/serf.vfStat
+//vf:override os.IsNotExist = github.com/hashicorp/serf/serf.vfIsNotExist
 //vf:unwind 40
 //vf:paths quick=800000 thorough=8000000
 //vf:bound state as VfC10_Step (0..2 alive nodes, 1-byte names other than newline, symbolic clocks and compaction threshold); step: join | failed | user event | query | clock tick; crash point: any of the first 24 file-system operations of the step
